@@ -161,6 +161,21 @@ func genHostileRFC6902(r *core.RNG, doc map[string]any) []any {
 			}
 		}
 		ops = append(ops, op)
+		if from, _ := op["from"].(string); kind == "copy" && protectedPointer(from) && r.Chance(2, 3) {
+			// a copy may share structure with its source: edits beneath the destination must not reach the source
+			dest := op["path"].(string)
+			token := core.Pick(r, []string{"0", "-", "id", "publicKeyJwk/x", "serviceEndpoint", "type", "0/id", "0/publicKeyJwk", "purposes/0"})
+			k2 := core.Pick(r, []string{"add", "remove", "replace"})
+			op2 := map[string]any{"op": k2, "path": dest + "/" + token}
+			if k2 != "remove" {
+				op2["value"] = "attacker"
+			}
+			ops = append(ops, op2)
+			if r.Chance(1, 2) {
+				ops = append(ops, map[string]any{"op": "remove", "path": dest})
+			}
+			continue
+		}
 		// pointers into their own source and edits through aliases can kill the process inside the RFC 6902
 		// library (C19 territory); here they would only hide the transition invariant behind a crash
 		for _, q := range ref.Quirks(doc, ops) {
@@ -241,6 +256,7 @@ func GenCompose(prop string, seed uint64, pool *Pool) *Plan {
 			}
 			st.Args["ctor"] = r.Chance(1, 2)
 		default: // C10
+			st.Args["ctor"] = r.Chance(1, 3)
 			var other []string
 			st.Patches = genPatches(r, pool, s, 4, &other)
 			if r.Chance(1, 2) {
@@ -306,7 +322,7 @@ func init() {
 		ID: "C11", Level: "exploration", EvalCounter: "validated_lists_applied",
 		Rule: "seeded hostile RFC 6902 lists (all six operation kinds; path and from drawn from the protected members of the actual document, their elements and sub-members, " +
 			"siblings sharing a prefix, '-', escaped tokens, numeric indices, the root); transition invariant: validated and applied => publicKey and service views are " +
-			"value-identical before and after. distinct_nontrivial = distinct shapes (operation kinds x which pointer is protected) of lists that were validated and applied",
+			"value-identical before and after. distinct_nontrivial = distinct (operation-kind sequence, which pointer is protected) shapes of lists that were validated and applied",
 		Cases: func(master uint64, tier string) []Case {
 			if tier == "thorough" {
 				return seqCases(master, 600000, nil)
